@@ -83,6 +83,8 @@ package goat
 //@   ensures[C12.start_at_most_once C05.start_at_most_once] ncalls("go:(*github.com/avos-io/goat.handler).runStream") <= old(ncalls("go:(*github.com/avos-io/goat.handler).runStream")) + 1
 //@   ensures[C12.no_start_for_known_or_malformed C14.no_start_for_known_or_malformed C06.no_start_for_known_or_malformed C20.no_start_for_known_or_malformed C05.no_start_for_known_or_malformed] atlock(rpc.Id in h.streams) || (rpc.Reset_ != nil && rpc.Reset_.Type == "RST_STREAM") || rpc.Body != nil || rpc.Trailer != nil ==>
 //@     | ncalls("go:(*github.com/avos-io/goat.handler).runStream") == old(ncalls("go:(*github.com/avos-io/goat.handler).runStream"))
+//@   ensures[C06.reset_only_for_streams_not_registered C03.reset_only_for_streams_not_registered C12.reset_only_for_streams_not_registered] atlock(rpc.Id in h.streams) ==>
+//@     | ncalls("call:goat.(*handler).resetStream") == old(ncalls("call:goat.(*handler).resetStream"))
 //@   ensures[C12.reset_for_unknown_body] !atlock(rpc.Id in h.streams) && !(rpc.Reset_ != nil && rpc.Reset_.Type == "RST_STREAM") && rpc.Body != nil ==>
 //@     | ncalls("call:goat.(*handler).resetStream") == old(ncalls("call:goat.(*handler).resetStream")) + 1
 //@   ensures[C02.every_message_handed_over C05.every_message_handed_over] atlock(rpc.Id in h.streams) && !(rpc.Reset_ != nil && rpc.Reset_.Type == "RST_STREAM") && result == nil ==> ncalls("send") == old(ncalls("send")) + 1 || closed(atlock(h.streams[rpc.Id].gone))
@@ -155,7 +157,7 @@ package goat
 //@     | == old(ncalls("fnfield:H.google.golang.org/grpc.StreamDesc.Handler") + ncalls("fnfield:H.goat.Server.streamInterceptor")) + 1
 //@   ensures[C07.stream_ctx_cancelled_at_exit C10.stream_ctx_cancelled_at_exit] done(cancels(handler.cancel))
 //@   atcall[C03.trailer_carries_handler_result C06.trailer_carries_handler_result] server.(*serverStream).SendTrailer : arg1 == appErr
-//@   atcall[C11.stream_signals_before_it_waits_for_the_registry_lock C14.stream_signals_before_it_waits_for_the_registry_lock C10.stream_signals_before_it_waits_for_the_registry_lock] goat.(*handler).unregisterStream : done(cancels(handler.cancel))
+//@   atcall[C11.stream_signals_before_it_waits_for_the_registry_lock C14.stream_signals_before_it_waits_for_the_registry_lock C10.stream_signals_before_it_waits_for_the_registry_lock C02.stream_signals_before_it_waits_for_the_registry_lock C05.stream_signals_before_it_waits_for_the_registry_lock] goat.(*handler).unregisterStream : done(cancels(handler.cancel))
 
 // reader closure of a server stream: only this stream's queue, or the stream context's error
 //@ func goat.(*handler).runStream$1
